@@ -46,6 +46,8 @@ func vCoreTables() []vTable {
 		/* 32 */ one("/t", vRoute{method: "GET", path: "/a", produces: vAX}, vRoute{method: "POST", path: "/a", produces: vAJ}),
 		/* 33 */ one("/t", vRoute{method: "POST", path: "/a", consumes: vAJ}, vRoute{method: "GET", path: "/a", consumes: vAX}),
 		/* 34 */ one("/t", vRoute{method: "POST", path: "/a", consumes: vAJ, noCT: []string{"POST"}}, vRoute{method: "GET", path: "/a", consumes: vAJ, noCT: []string{"PUT"}}),
+		/* 35 */ {services: []vService{{root: "/t/{id}", routes: []vRoute{g("/"), g("/r")}}, {root: "/t", routes: []vRoute{g("/"), vRoute{method: "POST", path: "/"}}}}},
+		/* 36 */ {services: []vService{{root: "/t", routes: []vRoute{g("/")}}, {root: "/t/{id}", routes: []vRoute{g("/r")}}, {root: "/tt", routes: []vRoute{g("/")}}}},
 	}
 }
 
